@@ -312,29 +312,106 @@ Qed.
 Lemma last_cons {A} (c : A) w d : last (c :: w) d = last w c.
 Proof. destruct w as [|b w]; [reflexivity|]. change (last (c :: b :: w) d) with (last (b :: w) d). apply last_default. discriminate. Qed.
 
-Lemma readHTML_exact s : forall l fol out,
-  rest l = s ++ fol -> forallb okb (s ++ fol) = true -> isHTML l = true ->
-  text_scan s fol = true -> text_end fol = true -> (last s (prevChar l) =? 92) = false ->
-  readHTML_loop (s ++ fol) l out = (readN (List.length s) l, rev s ++ out).
+Lemma prefixb_app_false p s t : prefixb p (s ++ t) = false -> prefixb p s = false.
 Proof.
-  induction s as [|c s IH]; intros l fol out Hr Hok Hh Hs He Hv.
-  - cbn [app List.length readN rev last] in *. destruct fol as [|c fol]; [reflexivity|].
+  intro H. destruct (prefixb p s) eqn:E; [|reflexivity]. apply prefixb_spec in E as (u & ->).
+  rewrite <- app_assoc, prefixb_app in H. discriminate H.
+Qed.
+
+Lemma starts_directive_app_false s t : starts_directive (s ++ t) = false -> starts_directive s = false.
+Proof.
+  unfold starts_directive. intro H. destruct (existsb (fun kw => prefixb kw s) directive_words) eqn:E; [|reflexivity].
+  apply existsb_exists in E as (kw & I & P). apply prefixb_spec in P as (u & ->).
+  assert (X : existsb (fun kw0 => prefixb kw0 ((kw ++ u) ++ t)) directive_words = true).
+  { apply existsb_exists. exists kw. split; [exact I|]. rewrite <- app_assoc. apply prefixb_app. }
+  rewrite X in H. discriminate H.
+Qed.
+
+(* the loop of readHTML reads the run and removes the backslashes of its escapes *)
+Lemma readHTML_exact : forall n s, (List.length s <= n)%nat -> forall l fol out,
+  rest l = s ++ fol -> forallb okb (s ++ fol) = true -> isHTML l = true ->
+  text_scan 0 s fol = true -> text_end fol = true -> (last s (prevChar l) =? 92) = false ->
+  readHTML_loop (s ++ fol) l out = (readN (List.length s) l, rev (unesc s) ++ out).
+Proof.
+  induction n as [|n IH]; intros s Hn l fol out Hr Hok Hh Hs He Hv.
+  { destruct s; [|cbn in Hn; lia]. clear Hn.
+    cbn [app List.length readN rev unesc last] in *. destruct fol as [|c fol]; [reflexivity|].
     cbn [readHTML_loop]. rewrite Hh. cbn [negb orb].
     assert (Ec : cur l = c) by (unfold cur; rewrite Hr; reflexivity). rewrite Ec.
     destruct (okb_hd _ _ Hok) as (C0 & _). apply N.eqb_neq in C0. rewrite C0.
     cbn [text_end] in He. apply orb_true_iff in He as [E|E].
     + rewrite (areBraces_here l _ Hv Hr E). destruct (isDirectiveToken l) as [a b]. reflexivity.
     + rewrite (isDirectiveToken_found l) by (rewrite Hr; exact E). rewrite Hv.
-      destruct (areBracesToken l) as [a b]. rewrite orb_true_r. reflexivity.
-  - cbn [app List.length readN rev] in *. cbn [text_scan] in Hs.
-    apply andb_true_iff in Hs as [Hs1 Hs]. apply andb_true_iff in Hs1 as [Hd Hb]. apply negb_true_iff in Hd, Hb.
-    destruct (okb_hd _ _ Hok) as (C0 & Hok'). apply N.eqb_neq in C0.
-    rewrite (readHTML_loop_step c (s ++ fol) l out Hr); try assumption.
-    rewrite (IH (readChar l) fol (c :: out)); try assumption.
-    + rewrite <- app_assoc. reflexivity.
-    + cbn [readChar rest]. rewrite Hr. reflexivity.
-    + rewrite last_cons in Hv. unfold prevChar. cbn [readChar lpos lprev]. cbn [Nat.eqb].
-      unfold cur. rewrite Hr. cbn [hd]. exact Hv.
+      destruct (areBracesToken l) as [a b]. rewrite orb_true_r. reflexivity. }
+  destruct s as [|c s'].
+  { apply (IH [] ltac:(cbn; lia) l fol out Hr Hok Hh Hs He Hv). }
+  cbn [List.length] in Hn.
+  cbn [app] in Hr, Hok. destruct (okb_hd _ _ Hok) as (C0 & Hok'). apply N.eqb_neq in C0.
+  assert (Hr1 : rest (readChar l) = s' ++ fol) by (cbn [readChar rest]; rewrite Hr; reflexivity).
+  assert (Pv : prevChar (readChar l) = c) by (unfold prevChar, cur; cbn [readChar lpos lprev Nat.eqb]; unfold cur; rewrite Hr; reflexivity).
+  cbn [text_scan] in Hs.
+  destruct (c =? 92) eqn:E92.
+  - apply N.eqb_eq in E92. subst c.
+    destruct (backslash_not_special (s' ++ fol)) as [B1 B2].
+    cbn [app List.length readN].
+    rewrite (readHTML_loop_step 92 (s' ++ fol) l out Hr Hh eq_refl B1 B2).
+    set (l1 := readChar l) in *.
+    destruct (prefixb [123; 123] (s' ++ fol)) eqn:Eb.
+    + (* \{{ : the backslash goes, both braces are text *)
+      apply andb_true_iff in Hs as [Pb Hs]. apply prefixb_spec in Pb as (s2 & ->).
+      cbn [app] in Hr1, Hok', Hs, Hv, Hn |- *. cbn [text_scan] in Hs.
+      cbn [unesc]. change (92 =? 92) with true. replace (prefixb [123; 123] (123 :: 123 :: s2)) with true by reflexivity. cbn [andb orb]. cbv match.
+      cbn [unesc]. change (123 =? 92) with false. cbn [andb]. cbv match.
+      cbn [List.length readN]. fold l1.
+      cbn [readHTML_loop]. change (isHTML l1) with (isHTML l). rewrite Hh. cbn [negb orb].
+      assert (Hc1 : cur l1 = 123) by (unfold cur; rewrite Hr1; reflexivity).
+      assert (Hp1 : peekChar l1 = 123) by (unfold peekChar; rewrite Hr1; reflexivity).
+      rewrite Hc1. change (123 =? 0) with false. cbv match.
+      unfold isDirectiveToken. rewrite Hc1. change (negb (123 =? 64)) with true. cbv match.
+      unfold areBracesToken. rewrite Hc1, Hp1, Pv. cbn [N.eqb Pos.eqb andb negb orb]. cbv match. cbn [tl].
+      set (l2 := readChar l1).
+      assert (Hr2 : rest l2 = 123 :: s2 ++ fol) by (unfold l2; cbn [readChar rest]; rewrite Hr1; reflexivity).
+      assert (Hc2 : cur l2 = 123) by (unfold cur; rewrite Hr2; reflexivity).
+      rewrite Hc2.
+      assert (Hr3 : rest (readChar l2) = s2 ++ fol) by (cbn [readChar rest]; rewrite Hr2; reflexivity).
+      assert (Pv3 : prevChar (readChar l2) = 123) by (unfold prevChar; cbn [readChar lpos lprev Nat.eqb]; exact Hc2).
+      destruct (okb_hd _ _ Hok') as (_ & Hok2). destruct (okb_hd _ _ Hok2) as (_ & Hok3).
+      assert (Hv3 : (last s2 (prevChar (readChar l2)) =? 92) = false).
+      { rewrite Pv3. destruct s2 as [|x s2']; [reflexivity|]. rewrite !last_cons in Hv. rewrite last_cons. exact Hv. }
+      rewrite (IH s2 ltac:(cbn [List.length] in Hn; lia) (readChar l2) fol (123 :: 123 :: out) Hr3 Hok3 Hh Hs He Hv3).
+      cbn [rev]. rewrite <- !app_assoc. reflexivity.
+    + destruct (starts_directive (s' ++ fol)) eqn:Ed.
+      * (* \@directive : the backslash goes, the keyword is text *)
+        apply andb_true_iff in Hs as [Pd Hs]. destruct (starts_directive_at s' Pd) as (s3 & ->).
+        cbn [app] in Hr1, Hok', Hs, Hv, Hn |- *. cbn [text_scan] in Hs.
+        cbn [unesc]. change (92 =? 92) with true. rewrite Pd. rewrite orb_true_r. cbn [andb]. cbv match.
+        change (64 =? 92) with false. cbn [andb]. cbv match.
+        cbn [List.length readN]. fold l1.
+        cbn [readHTML_loop]. change (isHTML l1) with (isHTML l). rewrite Hh. cbn [negb orb].
+        assert (Hc1 : cur l1 = 64) by (unfold cur; rewrite Hr1; reflexivity).
+        rewrite Hc1. change (64 =? 0) with false. cbv match.
+        rewrite (isDirectiveToken_found l1) by (rewrite Hr1; exact Ed). rewrite Pv. change (92 =? 92) with true. cbv match.
+        unfold areBracesToken. rewrite Hc1. change (64 =? 123) with false. cbn [andb orb]. rewrite andb_false_r. cbv match. cbn [tl].
+        assert (Hr3 : rest (readChar l1) = s3 ++ fol) by (cbn [readChar rest]; rewrite Hr1; reflexivity).
+        assert (Pv3 : prevChar (readChar l1) = 64) by (unfold prevChar; cbn [readChar lpos lprev Nat.eqb]; exact Hc1).
+        destruct (okb_hd _ _ Hok') as (_ & Hok3).
+        assert (Hv3 : (last s3 (prevChar (readChar l1)) =? 92) = false).
+        { rewrite Pv3. destruct s3 as [|x s3']; [reflexivity|]. rewrite !last_cons in Hv. rewrite last_cons. exact Hv. }
+        rewrite (IH s3 ltac:(cbn [List.length] in Hn; lia) (readChar l1) fol (64 :: out) Hr3 Hok3 Hh Hs He Hv3).
+        cbn [rev]. rewrite <- !app_assoc. reflexivity.
+      * (* a backslash that escapes nothing *)
+        cbn [unesc]. change (92 =? 92) with true.
+        rewrite (prefixb_app_false _ _ _ Eb), (starts_directive_app_false _ _ Ed). cbn [andb orb]. cbv match.
+        assert (Hv1 : (last s' (prevChar l1) =? 92) = false) by (rewrite Pv; rewrite last_cons in Hv; exact Hv).
+        rewrite (IH s' ltac:(lia) l1 fol (92 :: out) Hr1 Hok' Hh Hs He Hv1).
+        cbn [rev]. rewrite <- app_assoc. reflexivity.
+  - apply andb_true_iff in Hs as [Hs1 Hs]. apply andb_true_iff in Hs1 as [Hd Hb]. apply negb_true_iff in Hd, Hb.
+    cbn [app List.length readN].
+    rewrite (readHTML_loop_step c (s' ++ fol) l out Hr Hh C0 Hb Hd).
+    cbn [unesc]. rewrite E92. cbn [andb]. cbv match.
+    assert (Hv1 : (last s' (prevChar (readChar l)) =? 92) = false) by (rewrite Pv; rewrite last_cons in Hv; exact Hv).
+    rewrite (IH s' ltac:(lia) (readChar l) fol (c :: out) Hr1 Hok' Hh Hs He Hv1).
+    cbn [rev]. rewrite <- app_assoc. reflexivity.
 Qed.
 
 (* ---- tokens of code *)
@@ -574,6 +651,13 @@ Proof.
     rewrite E; cbv match; rewrite T'; reflexivity.
 Qed.
 
+Lemma simpleLookup_not_html c : simpleLookup c <> Some T_HTML.
+Proof.
+  intro E. apply simpleLookup_in in E.
+  assert (A : forallb (fun kt : N * tok => negb (tok_eqb (snd kt) T_HTML)) simple_tokens = true) by (vm_compute; reflexivity).
+  rewrite forallb_forall in A. specialize (A _ E). discriminate A.
+Qed.
+
 Lemma code_item f l p m ty s fol :
   St l p m (s ++ fol) -> mh m = false -> code_ok m ty s fol = true -> tok_eqb ty T_LBRACES = false ->
   exists l', nextToken (S f) l = Some (tokAt input ty (lit_of ty s) p (p + List.length s - 1), l') /\
@@ -609,6 +693,11 @@ Proof.
   all: try (match type of Hok with str_ok _ = true => idtac end;
             destruct (str_item f l p m s fol H Hm Hok) as (l' & E & S');
             exists l'; split; [exact E|cbn [next_md]; rewrite Hm; exact S']).
+  (* text is not a token of code *)
+  all: try (match goal with |- context [lit_of T_HTML] => idtac end; exfalso;
+            destruct s as [|c [|c2 s2]]; try discriminate Hok;
+            destruct (simpleLookup c) as [t|] eqn:E; try discriminate Hok;
+            apply ParseTotal.tok_eqb_eq in Hok; subst t; exact (simpleLookup_not_html c E)).
   (* one-byte tokens of the table *)
   all: try (destruct s as [|c [|c2 s2]]; try discriminate Hok;
             destruct (simpleLookup c) as [t|] eqn:E; try discriminate Hok;
@@ -713,7 +802,7 @@ Qed.
 
 Lemma text_item f l p m s fol :
   St l p m (s ++ fol) -> mh m = true -> text_ok s fol = true ->
-  exists l', nextToken (S f) l = Some (tokAt input T_HTML s p (p + List.length s - 1), l') /\
+  exists l', nextToken (S f) l = Some (tokAt input T_HTML (unesc s) p (p + List.length s - 1), l') /\
              St l' (p + List.length s) m fol.
 Proof.
   intros H Hm Hok. unfold text_ok in Hok. apply andb_true_iff in Hok as [Hok H92]. apply andb_true_iff in Hok as [Hok He].
@@ -721,8 +810,12 @@ Proof.
   destruct s as [|c s']; [discriminate Hn|].
   assert (Hh : isHTML l = true) by (destruct H as (_&_&_&_&_&Hh&_); rewrite Hh; exact Hm).
   assert (Hr : rest l = (c :: s') ++ fol) by apply H.
-  pose proof Hs as Hs0. cbn [text_scan] in Hs0. apply andb_true_iff in Hs0 as [Hs1 _]. apply andb_true_iff in Hs1 as [Hd Hb].
-  apply negb_true_iff in Hd, Hb.
+  assert (Hdb : starts_directive ((c :: s') ++ fol) = false /\ prefixb [123; 123] ((c :: s') ++ fol) = false).
+  { pose proof Hs as Hs0. cbn [text_scan] in Hs0. destruct (c =? 92) eqn:E92.
+    - apply N.eqb_eq in E92. subst c. destruct (backslash_not_special (s' ++ fol)) as [B1 B2]. split; assumption.
+    - apply andb_true_iff in Hs0 as [Hs1 _]. apply andb_true_iff in Hs1 as [Hd Hb].
+      apply negb_true_iff in Hd, Hb. split; assumption. }
+  destruct Hdb as [Hd Hb].
   assert (C0 : (cur l =? 0) = false).
   { destruct H as (_ & Ok & _). cbn [app] in Ok. destruct (okb_hd _ _ Ok) as (X & _). unfold cur. rewrite Hr. apply N.eqb_neq. exact X. }
   assert (Cb : (cur l =? 123) && (peekChar l =? 123) = false).
@@ -731,12 +824,12 @@ Proof.
   rewrite (isDirectiveToken_none l) by (rewrite Hr; exact Hd). cbn [fst]. cbv match.
   unfold readHTML. cbv zeta. change (rest (tokenBegins l)) with (rest l). rewrite Hr.
   assert (Hok : forallb okb ((c :: s') ++ fol) = true) by apply H.
-  rewrite (readHTML_exact (c :: s') (tokenBegins l) fol [] Hr Hok Hh Hs He
+  rewrite (readHTML_exact _ (c :: s') (le_n _) (tokenBegins l) fol [] Hr Hok Hh Hs He
              ltac:(rewrite (last_default (c :: s') _ 0) by discriminate; exact H92)).
   rewrite app_nil_r, rev_involutive.
   assert (Hlast : last (c :: s') 1 <> 92).
   { rewrite (last_default (c :: s') _ 0) by discriminate. apply N.eqb_neq. exact H92. }
-  destruct (token_after (c :: s') l p m fol T_HTML (c :: s') H ltac:(discriminate) Hlast eq_refl) as [T1 T2].
+  destruct (token_after (c :: s') l p m fol T_HTML (unesc (c :: s')) H ltac:(discriminate) Hlast eq_refl) as [T1 T2].
   cbv zeta in T1, T2. rewrite T1. eexists. split; [reflexivity|exact T2].
 Qed.
 
@@ -944,12 +1037,15 @@ Proof.
         apply ParseTotal.tok_eqb_eq in Hlk. apply negb_true_iff in Hill. split; [rewrite <- Hlk; apply lookupDirective_not_eof|exact Hill]. }
       split; [|split; [exact S'|exact Hne]].
       rewrite E'. f_equal. f_equal. f_equal.
-      unfold lit_of. destruct (tok_eqb ty T_STR) eqn:X; [|reflexivity].
-      apply ParseTotal.tok_eqb_eq in X. subst ty. exfalso.
-      unfold directive_ok in E. apply andb_true_iff in E as [E _]. apply andb_true_iff in E as [Hlk Hill].
-      apply ParseTotal.tok_eqb_eq in Hlk.
-      assert (Hl : tok_eqb (lookupDirective s) T_ILLEGAL = false) by (rewrite Hlk; reflexivity).
-      pose proof (lookupDirective_value s Hl) as Hin. rewrite Hlk in Hin. vm_compute in Hin. intuition discriminate.
+      assert (Hin : In ty (map snd directives_b)).
+      { unfold directive_ok in E. apply andb_true_iff in E as [E _]. apply andb_true_iff in E as [Hlk Hill].
+        apply ParseTotal.tok_eqb_eq in Hlk. apply negb_true_iff in Hill.
+        assert (Hl : tok_eqb (lookupDirective s) T_ILLEGAL = false) by (rewrite Hlk; exact Hill).
+        pose proof (lookupDirective_value s Hl) as Hin. rewrite Hlk in Hin. exact Hin. }
+      unfold lit_of. destruct (tok_eqb ty T_STR) eqn:X.
+      { apply ParseTotal.tok_eqb_eq in X. subst ty. exfalso. vm_compute in Hin. intuition discriminate. }
+      destruct (tok_eqb ty T_HTML) eqn:Y; [|reflexivity].
+      apply ParseTotal.tok_eqb_eq in Y. subst ty. exfalso. vm_compute in Hin. intuition discriminate.
   - (* code: skip the gap first *)
     assert (Hh : isHTML l = false) by (destruct H as (_&_&_&_&_&Hh&_); rewrite Hh; exact Hm).
     assert (Hws : forallb isWs gap = true /\ isWs (hd 0 (s ++ fol)) = false /\
